@@ -36,6 +36,7 @@ type Program struct {
 	Order     []string             // contract keys in file order
 	Funcs     map[string]*FuncInfo
 	SpecFuncs map[string]*SpecFunc // pkgpath.name
+	GhostVars map[string]bool      // ghost variables (global names)
 	Frames    []*FrameSpec
 	Copies    []*CopySpec
 	Lanes     []*LaneSpec
@@ -258,6 +259,15 @@ func (p *Program) parseSpecFuncs(fset *token.FileSet, f *ast.File, pkgPath strin
 					p.Frames = append(p.Frames, fs)
 				} else {
 					p.Owned[pkgPath+"."+tn] = append(p.Owned[pkgPath+"."+tn], fields...)
+				}
+				continue
+			}
+			if strings.HasPrefix(text, "ghostvar ") {
+				if p.GhostVars == nil {
+					p.GhostVars = map[string]bool{}
+				}
+				for _, g := range strings.Fields(text[9:]) {
+					p.GhostVars[g] = true
 				}
 				continue
 			}
